@@ -43,6 +43,8 @@ DIMS = {
     'kdtype': ['float64', 'float32'],
     # temperature interpolation of the tables (the one global setting, for cross-sections and k-tables alike)
     'mode': ['linear', 'exp'],
+    # order in which the k-table files list their quadrature points (abscissae, weights and coefficients alike)
+    'gorder': ['asc', 'desc'],
 }
 MAGS = {'thin': (1e-33, None), 'tau1': (1e-27, None), 'mixed': (1.0, [1e-33, 1e-27, 1e-24, 1e-18]),
         'sat': (1e-18, None)}
@@ -114,7 +116,7 @@ def run(case, ktab):
         d = fx.fresh_dir('ktables')
         for mol, kk in k.items():
             fx.write_pickle_ktable(os.path.join(d, '%s.pickle' % mol), mol, grid_of(case, mol), TG, PG, kk, case['gw'],
-                                   kdtype=np.float32 if f32 else float)
+                                   kdtype=np.float32 if f32 else float, gorder=case.get('gorder', 'asc'))
         GlobalCache()['xsec_interpolation'] = case.get('mode', 'linear')
         GlobalCache()['opacity_method'] = 'ktables'
         KTableCache().set_ktable_path(d)
